@@ -262,7 +262,14 @@ def stack_agrees_with_reference(repo: Repo) -> bool:
                     ok = False
                     break
         except (AnalysisError, KeyError):
-            ok = False
+            # the invariant cannot be stated on the representation Stack has now: the bounded, representation-
+            # independent HISTORIES rule stands in (raises included: pop on an empty stack raises, nothing else does)
+            try:
+                from .props.c09 import stack_histories  # noqa: PLC0415
+
+                ok = stack_histories(Check("C09", "quick", ""), repo, "quick")
+            except (AnalysisError, KeyError):
+                ok = False
         _STACK_OK[key] = ok
     return _STACK_OK[key]
 
